@@ -50,7 +50,7 @@ FACT_THEOREMS = {
     "C14": ("theories/Properties/SourceKernel.v", ["SRC_checkpoint", "SRC_packet"]),
     # the SIMD kernels and wrapper types, translated from the current source, are the hand-written models
     "C02": ("theories/Properties/SourceKernelX86.v",
-            ["SRC_sse_kernel", "SRC_sse_remainder_path", "SRC_sse_wrapper", "SRC_sse_from_identity",
+            ["SRC_sse_kernel", "SRC_sse_remainder_path", "SRC_sse_wrapper", "SRC_sse_from_identity", "SRC_sse_finalize_samples",
              "SRC_avx_kernel", "SRC_avx_wrapper", "SRC_avx_from_identity"]),
     "C03": ("theories/Properties/SourceKernelNeon.v",
             ["SRC_neon_kernel", "SRC_neon_remainder_path", "SRC_neon_wrapper", "SRC_neon_from_identity"]),
